@@ -39,6 +39,17 @@ def cases(chk):
         {"accts": 3, "groups": [[1, 2, 3]], "script": [["send", 1, "u", 2, 0], ["send", 1, "g", 0, 3], ["send", 3, "g", 0, 1]], "faults": [[1, "corrupt"], [2, "dup"]], "restarts": [1], "seed": 4},
         {"accts": 4, "groups": [[1, 2, 3, 4], [2, 3]], "script": [["send", 2, "g", 1, 4], ["send", 1, "g", 0, 6], ["send", 3, "u", 4, 2], ["send", 4, "g", 0, 5]], "faults": [], "restarts": [2], "seed": 5},
     ]
+    # duplicate delivery of group messages that travel as a plain sender-key message (not the sender's first to that member)
+    corpus += [
+        {"accts": 3, "groups": [[1, 2, 3]], "script": [["send", 1, "g", 0, 0], ["wait"], ["send", 1, "g", 0, 1], ["wait"], ["send", 2, "g", 0, 3], ["wait"], ["send", 1, "g", 0, 4]],
+         "faults": [[1, "dup"], [3, "dup"]], "restarts": [], "seed": 9},
+        {"accts": 3, "groups": [[1, 2, 3]], "script": [["send", 1, "g", 0, 0], ["wait"], ["send", 1, "g", 0, 1], ["send", 1, "g", 0, 2], ["wait"], ["send", 1, "g", 0, 4]],
+         "faults": [[1, "corrupt"], [2, "dup"], [3, "corrupt"]], "restarts": [], "seed": 12},
+        {"accts": 3, "groups": [[1, 2, 3]], "script": [["send", 1, "g", 0, 0], ["send", 1, "g", 0, 1], ["send", 1, "g", 0, 3]],
+         "faults": [[1, "corrupt"], [2, "dup"]], "restarts": [], "seed": 10},
+        {"accts": 4, "groups": [[1, 2, 3, 4]], "script": [["send", 2, "g", 0, 0], ["send", 2, "g", 0, 1], ["send", 2, "g", 0, 5], ["send", 3, "g", 0, 3], ["send", 3, "g", 0, 4]],
+         "faults": [[1, "dup"], [2, "dup"], [4, "dup"]], "restarts": [], "seed": 11},
+    ]
     # a party restarts right after its own group / 1:1 message was the last thing it wrote to its key store, then writes again
     corpus += [
         {"accts": 3, "groups": [[1, 2, 3]], "script": [["send", 1, "g", 0, 0], ["restart", 1], ["send", 1, "g", 0, 3]], "faults": [], "restarts": [], "seed": 6},
@@ -73,11 +84,17 @@ def cases(chk):
                 script.append(["send", a, "u", b, r.randrange(70)])
         nf = r.choice([0, 0, 1, 2, 3])
         faults = [[r.randrange(len(script)), r.choice(["dup", "corrupt"])] for _i in range(nf)]
+        if r.random() < 0.4:
+            # the conversation pauses: later messages meet established sessions and distributed sender keys
+            for _w in range(r.randint(1, 2)):
+                script.insert(r.randrange(1, len(script) + 1), ["wait"])
         if r.random() < 0.35:
             # a restart of the sender right after one of its messages (placed in the script: happens at the next quiescence)
-            i = r.randrange(len(script))
+            sends = [j for j, it in enumerate(script) if it[0] == "send"]
+            i = r.choice(sends)
             script.insert(i + 1, ["restart", script[i][1]])
-            faults = [f for f in faults if f[0] < i]        # faults are addressed by message index: keep those before the insertion
+            nth = sends.index(i)                            # faults are addressed by message number: keep those before the restart
+            faults = [f for f in faults if f[0] < nth]
         restarts = [r.randint(1, na) for _i in range(r.choice([0, 0, 1, 2]))]
         yield "script", {"accts": na, "groups": groups, "script": script, "faults": faults, "restarts": restarts, "seed": r.randrange(1 << 30)}
 
@@ -237,7 +254,12 @@ def run_case(chk, stream, case):
             steps += 1
             enabled = d.ask("e2e enabled").split()
             choices = list(enabled)
-            if script and script[0][0] == "restart":
+            if script and script[0][0] == "wait":
+                # the script goes on only when everything sent so far has been delivered and acknowledged
+                if not enabled:
+                    script.pop(0)
+                    continue
+            elif script and script[0][0] == "restart":
                 # a restart placed in the script: wait for quiescence, then restart that account, then go on with the script
                 if not enabled:
                     restarts.insert(0, script.pop(0)[1])
@@ -324,6 +346,12 @@ def run_case(chk, stream, case):
             # model and code have parted: finish the conversation on the real system alone (rest of the script, then any schedule to
             # quiescence) and let the property's clauses decide whether this is a concrete failing input
             for item in script:
+                if item[0] == "wait":
+                    try:
+                        w.srv.run(lambda acts: r.choice(acts), limit=5000)
+                    except Exception:
+                        pass
+                    continue
                 if item[0] == "restart":
                     try:
                         w.srv.run(lambda acts: r.choice(acts), limit=5000)
